@@ -18,6 +18,7 @@ import (
 	"time"
 
 	"github.com/go-logr/logr"
+	corev1 "k8s.io/api/core/v1"
 	apierrors "k8s.io/apimachinery/pkg/api/errors"
 	"k8s.io/apimachinery/pkg/labels"
 	"k8s.io/apimachinery/pkg/types"
@@ -125,6 +126,7 @@ type Task struct {
 	Conflict bool
 	client  *ctrlClient
 	view    *SyncView
+	nodesAtStart map[string]*corev1.Node // eds tasks: the cluster's nodes when the task began
 }
 
 func (t *Task) Label() string {
@@ -221,6 +223,8 @@ type Sim struct {
 	queue       map[string]bool
 	podOps      int
 	stopQuiesce bool
+	lastRoundOps int
+	QuiesceHook func(round int)
 }
 
 func hash64(parts ...string) uint64 {
@@ -323,6 +327,12 @@ func (s *Sim) StartReconcile(ctrl string, key types.NamespacedName) *Task {
 	t := s.newTask(ctrl, key)
 	t.client = s.clients[ctrl]
 	s.inflight[ctrl] = t
+	if ctrl == CtrlEDS {
+		t.nodesAtStart = map[string]*corev1.Node{}
+		for _, n := range s.Store.Nodes() {
+			t.nodesAtStart[n.Name] = n
+		}
+	}
 	if len(s.inflight) > 1 {
 		s.Stats.Overlaps++
 	}
@@ -446,17 +456,16 @@ func (s *Sim) grant(c *Call, fault string) {
 		s.Stats.Faults["reject"]++
 	default:
 		s.exec(c)
-		if fault == "lost" {
-			if c.Err == nil {
-				c.Err = injectedErr("reply lost")
-				s.Stats.Faults["lost-reply"]++
-				t.Faulted = true
-			} else {
-				c.Fault = ""
+		if fault == "lost" && c.Err == nil {
+			c.Err = injectedErr("reply lost")
+			s.Stats.Faults["lost-reply"]++
+			t.Faulted = true
+		} else {
+			c.Fault = ""
+			if c.Err != nil && apierrors.IsConflict(c.Err) {
+				t.Conflict = true
+				s.Stats.Conflicts++
 			}
-		} else if c.Err != nil && apierrors.IsConflict(c.Err) {
-			t.Conflict = true
-			s.Stats.Conflicts++
 		}
 	}
 	s.Hist = append(s.Hist, c)
